@@ -55,14 +55,15 @@ func (d *s1dir) signal() {
 }
 
 type s1end struct {
-	w        *s1world
-	name     string
-	out, in  *s1dir
-	closed   bool
-	deadline time.Time
-	passcred bool
-	peerPid  int32
-	fdBase   int
+	w         *s1world
+	name      string
+	out, in   *s1dir
+	closed    bool
+	deadline  time.Time // read deadline
+	wdeadline time.Time // write deadline: a send after it fails, as on a real socket (sends never block here)
+	passcred  bool
+	peerPid   int32
+	fdBase    int
 	// who receives on this end and how often it has entered SimRecv (for the late-reset event)
 	recvGoid     int
 	entrySeq     int
@@ -81,6 +82,9 @@ func (e *s1end) SimSend(b []byte, m unixsocket.Msg) error {
 	}
 	if e.out.recvClosed {
 		return syscall.EPIPE
+	}
+	if !e.wdeadline.IsZero() && !time.Now().Before(e.wdeadline) {
+		return os.ErrDeadlineExceeded
 	}
 	p := &s1pkt{data: append([]byte(nil), b...)}
 	for _, fd := range m.Fds {
@@ -192,11 +196,20 @@ func (e *s1end) closeLocked() error {
 	return nil
 }
 
-func (e *s1end) SimSetDeadline(t time.Time) error {
+func (e *s1end) SimSetDeadline(which int, t time.Time) error {
 	w := e.w
 	gid := goid()
 	w.mu.Lock()
 	defer w.mu.Unlock()
+	if which&2 != 0 && !e.closed {
+		e.wdeadline = t
+	}
+	if which&1 == 0 {
+		if e.closed {
+			return errSimClosed
+		}
+		return nil
+	}
 	if lag := w.resetLag; lag > 0 && t.IsZero() && !e.closed {
 		// The late-reset event: the goroutine about to clear the deadline was descheduled for `lag`
 		// first (any goroutine can be, between any two statements), and the receiver of this end got
@@ -447,11 +460,11 @@ type s1world struct {
 	msgs          []s1msg
 	transportLost bool // a close fault was injected / Destroy called
 	fdSeq         int
-	curOp         int   // index of the API call in flight (set by the simulator)
+	curOp         int           // index of the API call in flight (set by the simulator)
 	resetLag      time.Duration // the next clearing of a deadline takes effect this much later (the caller is descheduled)
 	lagSeq        int           // SimRecv entry count of the host end when resetLag was armed
-	hostSendOps   []int // op index of every host->container message, in order
-	lastSrvRecvOp int   // op index whose message the server received last
+	hostSendOps   []int         // op index of every host->container message, in order
+	lastSrvRecvOp int           // op index whose message the server received last
 }
 
 func newS1World(c *vcore.Ctx, conf *container.VServerConf) (*s1world, error) {
